@@ -13,6 +13,9 @@ for d in sorted(os.listdir("/verif/seeded")):
     own = m.get("breaks_property")
     caught.sort(key=lambda k: (k != own, k))
     cell = ", ".join(caught) if caught else "**not caught**"
+    if m.get("out_of_scope"):
+        cell = "out of scope: " + m["out_of_scope"].split(";")[0].split("(DESIGN")[0].strip()
+        missed = []
     if missed:
         cell += " (not by: %s)" % ", ".join(sorted(missed))
     if m.get("base_revision"):
